@@ -85,6 +85,7 @@ class Acc:
         self.violation_counts = {}
         self.samples = []
         self.notes = []
+        self.payload = None     # raw data a worker hands back to its parent (not merged)
 
     def case(self, key=None, nontrivial=True, n=1):
         self.evaluations += n
@@ -117,7 +118,7 @@ class Acc:
     def dump(self):
         return {"evaluations": self.evaluations, "keys": sorted(self.keys), "keys_overflow": self.keys_overflow,
                 "counters": self.counters, "violations": self.violations, "violation_counts": self.violation_counts,
-                "samples": self.samples, "notes": self.notes}
+                "samples": self.samples, "notes": self.notes, "payload": self.payload}
 
     def merge(self, d, maxkeys=("max_",), minkeys=("min_",)):
         self.evaluations += d["evaluations"]
